@@ -65,7 +65,7 @@ def run_machine(ctx, want, limit_quick, limit_thorough, classes=CLASSES, walks=N
 
 
 def run(ctx):
-    run_machine(ctx, lambda e: True, 220, 100000, walks=(3, 30) if ctx.tier == "quick" else (40, 120))
+    run_machine(ctx, lambda e: True, 220, 2500, walks=(3, 30) if ctx.tier == "quick" else (20, 100))
     return ctx.finish(rule=RULE, assumptions=[
         "histories longer than the graph's diameter are covered by the abstraction (equal abstract states behave alike) "
         "and, in the thorough tier, by the larger scale-factor alphabet",
